@@ -17,3 +17,5 @@
 package npm
 
 func verifEmit(root *treeNode) {}
+
+func verifStep(ev, name, version, requirement, alias, outcome string) {}
